@@ -262,3 +262,135 @@ fn p_fsrc_record() {
     }
     std::mem::forget(r);
 }
+
+fn p_alloc_variant(reset: usize, final_check: bool) {
+    use shapefile::record::ReadableShape;
+    let mut img: [u8; 72] = kani::any();
+    put_i32_le(&mut img, 0, T_MULTIPOINT);
+    let record_size: i32 = kani::any();
+    alloc_reset(reset);
+    let mut src = MemSource::new(&img);
+    let r = Multipoint::read_from(&mut src, record_size);
+    if final_check {
+        alloc_check_bound();
+    }
+    kani::cover!(r.is_err());
+    std::mem::forget(r);
+}
+#[kani::proof]
+#[kani::unwind(12)]
+#[kani::stub(std::vec::Vec::with_capacity, crate::env::with_capacity_model)]
+fn p_alloc_a() {
+    p_alloc_variant(72, false);
+}
+#[kani::proof]
+#[kani::unwind(12)]
+#[kani::stub(std::vec::Vec::with_capacity, crate::env::with_capacity_model)]
+fn p_alloc_b() {
+    p_alloc_variant(0, true);
+}
+#[kani::proof]
+#[kani::unwind(12)]
+#[kani::stub(std::vec::Vec::with_capacity, crate::env::with_capacity_model)]
+fn p_alloc_c() {
+    p_alloc_variant(72, true);
+}
+
+#[kani::proof]
+#[kani::unwind(12)]
+fn p_vecmodel() {
+    let cap: usize = kani::any();
+    let mut v: Vec<Point> = with_capacity_model(cap);
+    let n: u8 = kani::any();
+    let mut i = 0;
+    while i < n && i < 6 {
+        v.push(Point::new(1.0, 2.0));
+        i += 1;
+    }
+    assert!(v.len() <= 6);
+    std::mem::forget(v);
+}
+
+#[kani::proof]
+fn p_vec_basic1() {
+    let mut v: Vec<Point> = Vec::new();
+    v.push(Point::new(1.0, 2.0));
+    assert!(v.len() == 1);
+    std::mem::forget(v);
+}
+#[kani::proof]
+fn p_vec_basic2() {
+    let mut v: Vec<Point> = Vec::new();
+    v.reserve_exact(16);
+    v.push(Point::new(1.0, 2.0));
+    assert!(v.len() == 1);
+    std::mem::forget(v);
+}
+#[kani::proof]
+fn p_vec_basic3() {
+    let mut v: Vec<Point> = Vec::with_capacity(16);
+    v.push(Point::new(1.0, 2.0));
+    assert!(v.len() == 1);
+    std::mem::forget(v);
+}
+
+#[kani::proof]
+#[kani::unwind(12)]
+fn p_vec_loop() {
+    let mut v: Vec<Point> = Vec::new();
+    v.reserve_exact(16);
+    let n: u8 = kani::any();
+    let mut i = 0;
+    while i < n && i < 6 {
+        v.push(Point::new(1.0, 2.0));
+        i += 1;
+    }
+    assert!(v.len() <= 6);
+    std::mem::forget(v);
+}
+#[kani::proof]
+#[kani::unwind(12)]
+fn p_vec_loop_wc() {
+    let mut v: Vec<Point> = Vec::with_capacity(16);
+    let n: u8 = kani::any();
+    let mut i = 0;
+    while i < n && i < 6 {
+        v.push(Point::new(1.0, 2.0));
+        i += 1;
+    }
+    assert!(v.len() <= 6);
+    std::mem::forget(v);
+}
+
+fn wcm2<T>(cap: usize) -> Vec<T> {
+    let sz = core::mem::size_of::<T>();
+    assert!(sz == 0 || cap <= (isize::MAX as usize) / sz, "capacity overflow");
+    let mut v = Vec::new();
+    v.reserve_exact(16);
+    v
+}
+fn wcm3<T>(cap: usize) -> Vec<T> {
+    let sz = core::mem::size_of::<T>();
+    if !(sz == 0 || cap <= (isize::MAX as usize) / sz) {
+        panic!("capacity overflow");
+    }
+    let mut v = Vec::new();
+    v.reserve_exact(16);
+    v
+}
+#[kani::proof]
+#[kani::unwind(12)]
+fn p_wcm2() {
+    let cap: usize = kani::any();
+    let mut v: Vec<Point> = wcm2(cap);
+    v.push(Point::new(1.0, 2.0));
+    std::mem::forget(v);
+}
+#[kani::proof]
+#[kani::unwind(12)]
+fn p_wcm3() {
+    let cap: usize = kani::any();
+    let mut v: Vec<Point> = wcm3(cap);
+    v.push(Point::new(1.0, 2.0));
+    std::mem::forget(v);
+}
